@@ -129,7 +129,7 @@ type reader struct {
 	expectChunk         bool
 	expectedChunkLength uint32
 	runningStatus       runningstatus.Reader
-	processedTracks     int16
+	processedTracks     int32 // the header can announce up to 65535 tracks
 	deltatime           uint32
 	headerIsRead        bool
 	error               error
@@ -141,7 +141,7 @@ func (r *reader) Delta() uint32 {
 }
 
 // Track returns the track for the last MIDI message
-func (r *reader) Track() int16 {
+func (r *reader) Track() int32 {
 	return r.processedTracks
 }
 
@@ -418,7 +418,7 @@ func (r *reader) _readEvent(canary byte) (m Message, err error) {
 
 		// TODO check the read length of the track against the length thas has been read
 		// return ErrTruncatedTrack if meta.EndOfTrack comes to early or ErrOverflowingTrack it it comes too late
-		if uint16(r.processedTracks+1) == r.numTracks {
+		if r.processedTracks+1 == int32(r.numTracks) {
 			r.log("last track has been read")
 			r.isDone = true
 		} else {
